@@ -15,7 +15,7 @@
    PART B  the single-regularization path of AbstractInversion.curvature_reg_matrix (in-place `+=` into the
            cached curvature_matrix, entry deleted) and the preloaded curvature matrix (copy.copy).
    PART C  seeded noise: setup_random_seed / poisson_noise_via_data_eps_from over an abstract generator.
-   The policy [faithful] follows /repo with the repairs fixes/C11_*.diff applied (D7, D9 committed; D10, D11, D12 proposed):
+   The policy [faithful] follows /repo (repairs D7, D9, D10, D11, D12 committed):
    only D8 (MapperValued.values_masked writes the caller's values; pinned by a test) remains.
    Pure numerics (what a quantity's value is, as a function of the object's contents) are a parameter
    [qf] of the machine: the theorems hold for every [qf]; the correspondence run instantiates it with
@@ -132,7 +132,7 @@ Record policy := mkPolicy {
   p_maprecon_copies : bool;          (* mapped_reconstructed_image_from: `mapping_matrix = mapping_matrix.copy()`  (D9) *)
   p_interf_mutates_settings : bool   (* inversion_interferometer_from: `settings.use_w_tilde = False`              (D12) *)
 }.
-(* the code of /repo with fixes/C11_*.diff: D7 D9 D10 D11 D12 repaired, D8 present (pinned by a test) *)
+(* the code of /repo: D7 D9 D10 D11 D12 repaired, D8 present (pinned by a test) *)
 Definition faithful : policy := mkPolicy true false false true true false.
 (* the code before the repairs *)
 Definition unrepaired : policy := mkPolicy false true true true false true.
